@@ -69,6 +69,29 @@ private theorem le64_fold (bs : List UInt8) (n : Nat) (hn : n ≤ 8) :
 
 theorem le64_toNat (bs : List UInt8) : (le64 bs).toNat = sumLE bs 8 := le64_fold bs 8 (Nat.le_refl _)
 
+private theorem pow8_succ (n : Nat) : 2 ^ (8 * (n + 1)) = 256 * 2 ^ (8 * n) := by
+  rw [Nat.mul_succ, Nat.pow_add]; omega
+
+/-- One `+ ((b & 0xff) << 8n)` of `getblock`: no carry, no overflow. -/
+private theorem add_step (acc : UInt64) (b : UInt8) (n : Nat) (hn : n < 8) (s : UInt64) (hs : s.toNat = 8 * n)
+    (v : Nat) (hv : acc.toNat = v) (hlt : v < 2 ^ (8 * n)) :
+    (acc + (b.toUInt64 <<< s)).toNat = v + b.toNat * 2 ^ (8 * n) := by
+  rw [UInt64.toNat_add, UInt64.toNat_shiftLeft, UInt8.toNat_toUInt64, hs, hv, Nat.shiftLeft_eq]
+  have h8 : 8 * n % 64 = 8 * n := by omega
+  rw [h8]
+  have hb : b.toNat < 256 := b.toNat_lt
+  have hpow : 2 ^ (8 * n) ≤ 2 ^ 56 := Nat.pow_le_pow_right (by omega) (by omega)
+  have hm : b.toNat * 2 ^ (8 * n) ≤ 255 * 2 ^ (8 * n) := Nat.mul_le_mul_right _ (by omega)
+  have h56 : (2 : Nat) ^ 56 = 72057594037927936 := by decide
+  have h64 : (2 : Nat) ^ 64 = 18446744073709551616 := by decide
+  generalize 2 ^ (8 * n) = P at *
+  generalize b.toNat * P = bP at *
+  rw [h64]
+  rw [h56] at hpow
+  have e1 : bP % 18446744073709551616 = bP := Nat.mod_eq_of_lt (by omega)
+  rw [e1]
+  exact Nat.mod_eq_of_lt (by omega)
+
 theorem getblock_toNat (key : List UInt8) (offset index : Nat) :
     (Java.getblock key offset index).toNat = sumLE (key.drop (offset + 8 * index)) 8 := by
   have hget : ∀ j, (key.drop (offset + 8 * index)).getD j 0 = Java.get key (offset + index <<< 3 + j) := by
@@ -79,19 +102,29 @@ theorem getblock_toNat (key : List UInt8) (offset index : Nat) :
     congr 2
     omega
   unfold Java.getblock
-  simp only [toLong_mask, sumLE, hget]
-  generalize Java.get key (offset + index <<< 3 + 0) = b0
-  generalize Java.get key (offset + index <<< 3 + 1) = b1
-  generalize Java.get key (offset + index <<< 3 + 2) = b2
-  generalize Java.get key (offset + index <<< 3 + 3) = b3
-  generalize Java.get key (offset + index <<< 3 + 4) = b4
-  generalize Java.get key (offset + index <<< 3 + 5) = b5
-  generalize Java.get key (offset + index <<< 3 + 6) = b6
-  generalize Java.get key (offset + index <<< 3 + 7) = b7
-  have h0 := b0.toNat_lt; have h1 := b1.toNat_lt; have h2 := b2.toNat_lt; have h3 := b3.toNat_lt
-  have h4 := b4.toNat_lt; have h5 := b5.toNat_lt; have h6 := b6.toNat_lt; have h7 := b7.toNat_lt
-  simp only [UInt64.toNat_add, UInt64.toNat_shiftLeft, UInt8.toNat_toUInt64, UInt64.toNat_ofNat, Nat.shiftLeft_eq]
-  omega
+  simp only [toLong_mask]
+  have hs := sumLE_lt (key.drop (offset + 8 * index))
+  generalize hS : sumLE (key.drop (offset + 8 * index)) = S at hs
+  have hS' : ∀ n, S (n + 1) = S n + (Java.get key (offset + index <<< 3 + n)).toNat * 2 ^ (8 * n) := by
+    intro n; rw [← hS, ← hget]; rfl
+  have hS0 : S 0 = 0 := by rw [← hS]; rfl
+  have e0 : (Java.get key (offset + index <<< 3 + 0)).toUInt64.toNat = S 1 := by
+    rw [UInt8.toNat_toUInt64, hS', hS0]; simp
+  have e1 := add_step _ (Java.get key (offset + index <<< 3 + 1)) 1 (by omega) 8 (by decide) _ e0 (hs 1)
+  rw [← hS' 1] at e1
+  have e2 := add_step _ (Java.get key (offset + index <<< 3 + 2)) 2 (by omega) 16 (by decide) _ e1 (hs 2)
+  rw [← hS' 2] at e2
+  have e3 := add_step _ (Java.get key (offset + index <<< 3 + 3)) 3 (by omega) 24 (by decide) _ e2 (hs 3)
+  rw [← hS' 3] at e3
+  have e4 := add_step _ (Java.get key (offset + index <<< 3 + 4)) 4 (by omega) 32 (by decide) _ e3 (hs 4)
+  rw [← hS' 4] at e4
+  have e5 := add_step _ (Java.get key (offset + index <<< 3 + 5)) 5 (by omega) 40 (by decide) _ e4 (hs 5)
+  rw [← hS' 5] at e5
+  have e6 := add_step _ (Java.get key (offset + index <<< 3 + 6)) 6 (by omega) 48 (by decide) _ e5 (hs 6)
+  rw [← hS' 6] at e6
+  have e7 := add_step _ (Java.get key (offset + index <<< 3 + 7)) 7 (by omega) 56 (by decide) _ e6 (hs 7)
+  rw [← hS' 7] at e7
+  exact e7
 
 /-- `getblock(key, offset, index)` loads the 8 bytes at `offset + 8·index` little-endian. -/
 theorem getblock_eq_le64 (key : List UInt8) (offset index : Nat) :
